@@ -86,6 +86,16 @@ CHECKS = {
    text="Flow.tla defines endpoints/flows as values with Eq, Less (strict total order), Reverse, Split/Join and the hash relation; FlowGen.tla checks the laws exhaustively over a small universe (types, byte alphabet {0,1,255}, lengths 0..2 and 15-17) with an ideal implementation and exports all pairs; the driver builds exactly those values through every constructor route from dirty arrays and records ==, map-key behaviour, LessThan, Reverse, Endpoints round trip and FastHash relations; for decoded real packets every layer exposing a flow must carry exactly its address fields and the address-swapped packet must give the reversed flow with equal hash; TLC validates every observation.",
    design_ref="4/C17", technique="TLA+ value algebra (TLC exhaustive small scope) + replay of all pairs + TLC trace validation",
    note="The hash is judged relationally (FNV is not computed in TLC); layer address fields are read by reflection over conventional field names."),
+ "C14": dict(
+   category="model_checking",
+   text="PcapFile.tla gives the framing of classic pcap and pcapng as functions (header, record, block and option lengths with padding and end-of-options) and the truncation law ReadPrefix(file, cut); PcapFileGen.tla enumerates record sequences (<= 3 packets, capture lengths incl. 0 and non-multiples of 4, micro/nano writer, boundary timestamps, 1-2 interfaces, option strings of length 0..5, per-packet options) and checks an ideal block-by-block reader against the law at every offset; every scenario is written by the real writers, its size and every block boundary compared with the model, read back with copying and zero-copy calls and through libpcap, and re-read from EVERY byte prefix; TLC validates each observation (exactly the packets wholly inside the prefix, unaltered, then EOF or unexpected EOF).",
+   design_ref="4/C14", technique="TLA+ framing functions and truncation law + TLC scenario enumeration + replay with exhaustive truncation + TLC trace validation",
+   note="A crash is modelled as a prefix of the flushed byte stream; the pcapng writer's resolution is fixed at ns; if_tsoffset handling of NgWriter is a recorded known finding."),
+ "C15": dict(
+   category="exploration",
+   text="The layout map of PcapFile.tla makes every field of every block header, option and record enumerable; NgReaderGen.tla lets TLC enumerate (base file, field locator, value class) corruptions for pcap, pcapng and snoop and stream chunkings, with an ideal reader; each corruption is applied to a really written file (also gzip-wrapped) and read to the end in child processes under an address-space cap through whole / 1-byte / TLC-chosen chunkings and with injected I/O errors; NgReader.tla accepts iff no panic/hang/abort, datalen = caplen <= len, per-call allocation within c0 + c1*(bytes present + snaplen), identical results for all chunkings, and injected errors surfacing as errors; seeded random corruptions on the same map complete the space.",
+   design_ref="4/C15", technique="TLC-enumerated corruptions over a TLA+ layout map + replay in capped child processes + TLC trace validation of the reader envelope",
+   note="Allocation bound constants c0 = 1 MiB, c1 = 8; gzip streams are checked for the envelope only."),
  "C18": dict(
    category="model_checking",
    text="SerializeBuffer.tla: TLC proves exhaustively (all op sequences to the bound) that the transcription of writer.go refines the abstract buffer; every exported behaviour is replayed on the real buffer and every real step is validated by TLC against the abstract layer (contents, returned-slice length, window position, layers).",
